@@ -119,20 +119,6 @@ ExpNum(C, sn, q, idx) ==
       acc(k) == IF k < 0 THEN ZeroM(n)
                 ELSE MatAdd(MatScale((2 ^ (q * (idx - 1 - k))) * (Fact(idx - 1) \div Fact(k)), PowM(Cs, k)), acc(k - 1))
   IN acc(idx - 1)
-\* tolerance = tolUnits * tolScale * 2^-52 entrywise, tolUnits = CExp n ceil(|N|), tolScale = ceil(sum_k ceil(|N|)^k / k!):
-\* the relative condition number of exp at N is at least |N|, and the Frechet derivative of exp at a nilpotent N is bounded
-\* through the finite series; so c n eps max(1,|N|) sum_k |N|^k/k! is what a forward stable algorithm attains.
-\* (Measured on gonum, seeds 1..6: error / (n eps ceil|N| sum) <= 19 over all cases; without the factor |N| the quotient grows with
-\* every squaring, to 2900 at |N| = 346.)
-CExp == 256
-NormCeil(C, sn, q) == CeilDiv(Norm1(C) * sn, 2 ^ q)
-ExpTolUnits(C, sn, q) == CExp * Len(C) * NormCeil(C, sn, q)
-ExpTolScale(C, sn, q, idx) ==
-  LET W == NormCeil(C, sn, q)  F == Fact(idx - 1)
-      RECURSIVE s(_)
-      s(k) == IF k < 0 THEN 0 ELSE (W ^ k) * (F \div Fact(k)) + s(k - 1)
-  IN CeilDiv(s(idx - 1), F)
-
 \* implementation-shaped labels (Higham, Functions of Matrices, Algorithm 10.20); norm = nn / 2^q
 PadeOrder(nn, q) == LET le(th) == nn * 1000 <= th * (2 ^ q)
                     IN IF le(15) THEN 3 ELSE IF le(250) THEN 5 ELSE IF le(950) THEN 7 ELSE IF le(2100) THEN 9 ELSE 13
@@ -141,6 +127,26 @@ SqFrom(nn, q, j) == IF nn * 1000 <= 5400 * (2 ^ j) * (2 ^ q) THEN j ELSE SqFrom(
 Squarings(nn, q) == IF PadeOrder(nn, q) < 13 THEN 0 ELSE SqFrom(nn, q, 0)
 \* order 13 without scaling, norm at most theta13 / 2: log2(norm / theta13) <= -1
 LowHalf(nn, q) == PadeOrder(nn, q) = 13 /\ nn * 1000 <= 2700 * (2 ^ q)
+
+\* tolerance = tolUnits * tolScale * 2^-52 entrywise, tolUnits = CExp n ceil(|N|), tolScale = ceil(sum_k ceil(|N|)^k / k!):
+\* the relative condition number of exp at N is at least |N|, and the Frechet derivative of exp at a nilpotent N is bounded
+\* through the finite series; so c n eps max(1,|N|) sum_k |N|^k/k! is what a forward stable algorithm attains.
+\* (Measured on gonum, seeds 1..6: error / (n eps ceil|N| sum) <= 19 over all cases; without the factor |N| the quotient grows with
+\* every squaring, to 2900 at |N| = 346.)
+\* Scaling and squaring is not forward stable on non-normal matrices: every squaring may double the relative error
+\* (Higham, Functions of Matrices, 10.3), and no a-priori bound close to what is observed exists. The tolerance is
+\* therefore a gross-error detector, not an accuracy claim: the factor 2^squarings follows that doubling, and CExp leaves
+\* a margin of more than 50 over everything measured (thorough tier, seed 2: error / (n eps ceil|N| sum) = 450 at
+\* |N| = 344 with 6 squarings - with the earlier constant 256 and no squaring factor that case was a false alarm).
+\* A wrong Pade coefficient, a missed or extra squaring or a corrupted operand is wrong by many orders more.
+CExp == 1024
+NormCeil(C, sn, q) == CeilDiv(Norm1(C) * sn, 2 ^ q)
+ExpTolUnits(C, sn, q) == CExp * (2 ^ Squarings(Norm1(C) * sn, q)) * Len(C) * NormCeil(C, sn, q)
+ExpTolScale(C, sn, q, idx) ==
+  LET W == NormCeil(C, sn, q)  F == Fact(idx - 1)
+      RECURSIVE s(_)
+      s(k) == IF k < 0 THEN 0 ELSE (W ^ k) * (F \div Fact(k)) + s(k - 1)
+  IN CeilDiv(s(idx - 1), F)
 
 ExpModes == <<"empty", "sized", "view", "self", "self-view", "basic", "transposed">>
 ExpRec(kind, n, t, ti, side) ==
